@@ -1,4 +1,5 @@
 import MpVerif.C01.Lemmas
+import MpVerif.C01.ModelCompose
 /-!
 # C01 — property theorems (gadgets, context propagation)
 
@@ -1561,7 +1562,6 @@ in the context `ctx` stored on it.  Hypotheses tie the pieces exactly as the con
 Conclusion: a point is feasible for the NL constraint iff values for `res` and the auxiliaries exist that
 satisfy the delivered constraints (projection equivalence for this fragment). -/
 
-def setVar (x : Asg) (v : Var) (q : Rat) : Asg := fun w => if w = v then q else x w
 
 theorem req_refl (c : Ctx) (v : Rat) : req c v v := by cases c <;> simp [req]
 theorem rel_refl (c : Ctx) (v : Rat) : rel c v v := req_refl _ v
